@@ -322,6 +322,16 @@ def library(draw, lang=None, max_decls=8, with_python=None, with_lua=None, featu
         elif k == "generic":
             # fortran.rst / generic.yaml GenericReal
             name = names.fresh("Generic")
+            if draw(st.booleans()):
+                # generic.yaml AssignValues / SavePointer: array argument restated per variant, the size
+                # argument (with its implied attribute) taken over from the declaration
+                lib["decls"].append(dict(kind="func", name=name, rtype="void", rattrs="", rrow="Rvoid", rT=None,
+                                         params=[P("arg", "const double *arg", "+rank(1)", "N3in", "double", lua=False),
+                                                 P("narg", "int narg", "+implied(size(arg))", "N1", "int")],
+                                         generic=["(const float *arg +rank(1))", "(const double *arg +rank(1))"],
+                                         py=False, lua=False, const=False, static=False,
+                                         options={}, format={}, extra={}))
+                continue
             lib["decls"].append(dict(kind="func", name=name, rtype="void", rattrs="", rrow="Rvoid", rT=None,
                                      params=[P("arg", "double arg", "", "N1", "double")],
                                      generic=["(float arg)", "(double arg)"],
